@@ -194,9 +194,10 @@ class Run:
         t0 = time.time()
         # heap per validator by the largest shard; as many validators at once as the memory that is free right now allows
         big = max([os.path.getsize(sh) for sh in shards] or [0])
-        heap_mb = 6000 if (self.tier == "thorough" or big > 60e6) else 2500
+        heap_mb = 6000 if self.tier == "thorough" else int(min(6000, max(2500, 80 * big / 1e6)))   # (a heap that is too tight makes TLC collect garbage all the time)
         xmx = "%dm" % heap_mb
         par = max(2, min(NCPU, int(mem_available_mb() * 0.75 / (heap_mb + 300))))
+        log("validating %d shards (largest %.1f MB), %d at a time, heap %d MB" % (len(shards), big / 1e6, par, heap_mb))
         with ThreadPoolExecutor(max_workers=par) as ex:
             for (rows, summ) in ex.map(one, shards):
                 notes += rows
